@@ -94,6 +94,13 @@ def facts_at(f, R, nid):
         elif k == 'ForStmt':
             if child == pn['body'] or child in f.descendants(pn['body']):
                 lf = normal_for(f, p)
+                if lf is None:
+                    from loops import descending_for
+                    df = descending_for(f, p)
+                    if df:
+                        # for (i = START; i > 0; --i): 1 <= i <= START in the body
+                        out.append(('local:' + df['name'], '>', '0', pn.get('cond', p)))
+                        out.append(('local:' + df['name'], '<=', uncast(R.render(df['start'])), p))
                 if lf:
                     out.append(('local:' + lf['name'], lf['op'], uncast(R.render(lf['bound'])), pn.get('cond', p)))
                     if lf['start_cv'] is not None:
@@ -282,6 +289,12 @@ def prove(prog, s, ctx):
                     for l, op, r, _ in facts:
                         if l == I and op == '<' and re.match(r'^\d+$', r) and int(r) <= K:
                             return 'ok', 'G5', 'index < %s <= constant size %d' % (r, K)
+        # G3b: index == j - 1 with 0 < j <= size (descending loop)
+        for mono, cf_ in ip.items():
+            pass
+        for l, op, r, _ in facts:
+            if op == '<=' and r == size and P.equal(ip, P.add({(l,): 1}, P.const(-1))) and any(l2 == l and op2 == '>' and r2 == '0' for l2, op2, r2, _ in facts):
+                return 'ok', 'G3', '%s - 1 with 0 < %s <= %s (descending loop)' % (l, l, size)
         # G2: resize-before-assign
         for st in preceding_statements(f, s.nid):
             sn = f.nodes[st]
